@@ -446,7 +446,20 @@ func genSeq(t *rapid.T) SeqCase {
 		// damaged where the garbler's result cannot depend on it.
 		plan := ""
 		r := uni(t, 100, "plan")
-		if k < n-1 {
+		if k > 0 && sc.Steps[k-1].C != nil && uni(t, 100, "repeat") < 30 {
+			// The same damage arrives again: same inputs, same
+			// corruption as in the session before (what a rejected
+			// message left behind must not make its repetition pass).
+			prev := sc.Steps[k-1]
+			st.X, st.Y = prev.X, prev.Y
+			cc := *prev.C
+			st.C = &cc
+			sc.Steps = append(sc.Steps, st)
+			continue
+		}
+		if s.Mode == "stream" && uni(t, 100, "evalargplan") < 20 {
+			plan = "evalarg"
+		} else if k < n-1 {
 			switch {
 			case r < 45:
 				plan = "outlabel"
